@@ -33,6 +33,7 @@ CasesOf(f) == CASE f = "expr"   -> Fam("expr", ExprTrees, CtxIds)
                 [] f = "metal1" -> Fam("metal", MetalTrees({FALSE}), CtxIds)
                 [] f = "esc"    -> EscCases(EscLen)
                 [] f = "py"     -> PyCases
+                [] f = "doc"    -> DocCases(IF Quick THEN DocTreesSmall ELSE DocTreesSmall \cup DocTreesLarge)
 Cases == UNION {CasesOf(f) : f \in Families}
 
 \* the context the harness builds: the entries of the case plus `macros` = the template's macro table
@@ -57,9 +58,5 @@ WellFormed == (phase = "run" /\ nsteps = 0) => WellFormedProg(prog, sym, macros)
 Terminates == nsteps <= MaxSteps
 Completes  == Done => (st.err = "" \/ (KnownRepeatOverMapping /\ st.err = "KeyError"))
 Refines    == (Done /\ st.err = "") => (st.out = Sem!Doc(Ref.t) /\ st.g = Ref.g)
-\* ---- C18 on the design ----
-ContextRestored == (Done /\ st.err = "") => Restored(st, G0(case))
-PythonGated == (Done /\ st.err = "" /\ ~case.py) => TX!Find(st.out, "PY") = 0
-
 WriteCases == JsonSerialize(IOEnv.CASES_FILE, [cases |-> SetToSeq(Cases), contexts |-> Contexts])
 =============================================================================
